@@ -331,6 +331,13 @@ fn gen_program(rng: &mut Rng, st: &mut Stats) -> Option<ScannerCfg> {
             gen_single_mode(rng, &p, &mp)
         }
     };
+    let mut cfg = cfg;
+    for m in cfg.modes.iter_mut() {
+        for p in m.pats.iter_mut() {
+            let mut counter = 0;
+            uniquify_group_names(&mut p.re, &mut counter);
+        }
+    }
     if !cfg.all_res().iter().all(|r| print_parse_roundtrip_ok(r)) {
         st.count("harness_guard_print_parse_mismatch");
         return None;
@@ -374,7 +381,15 @@ pub fn run_lang(which: Which, tier: Tier) -> i32 {
         st.nontrivial(hash_of(&cfg));
         match lang_check_cfg(&cfg, which, st) {
             Ok(()) => CaseOutcome::Ok,
-            Err(v) => CaseOutcome::Violated(v),
+            Err(mut v) => {
+                // minimize the program
+                let mut scratch = Stats::default();
+                let mut still_fails = |c2: &ScannerCfg, _i: &str| lang_check_cfg(c2, which, &mut scratch).is_err();
+                let (mc, _, calls) = crate::shrink::shrink_cfg_input(&cfg, "", &mut still_fails);
+                let what = lang_check_cfg(&mc, which, &mut scratch).err().map(|x| x.what).unwrap_or_default();
+                v.case["minimized"] = json!({"patterns": mc.describe(), "what": what, "cfg": mc, "oracle_calls": calls});
+                CaseOutcome::Violated(v)
+            }
         }
     }));
     // stream 2: the systematic {a,b} terms, all singles
